@@ -424,6 +424,59 @@ func c07GroupLookup(rep *report.R, maxRanges int) {
 		}
 	}
 	rec(0)
+	// label sequences: up to 6 disjoint ranges (v4 and v6, not in address order) labelled by every sequence over 3 labels (repeats,
+	// returns to an earlier label, runs): each range keeps the label written on its own line
+	lranges := [][2]string{{"10.0.3.0", "10.0.3.255"}, {"10.0.1.0", "10.0.1.255"}, {"2001:db8:5::", "2001:db8:5::ffff"}, {"10.0.2.0", "10.0.2.255"}, {"192.0.2.1", "192.0.2.1"}, {"2001:db8:1::", "2001:db8:1::ffff"}}
+	labels := []string{"east", "west", "north"}
+	maxSeq := 5
+	if maxRanges >= 3 {
+		maxSeq = 6
+	}
+	var seq []int
+	var lrec func()
+	lrec = func() {
+		if len(seq) > 0 {
+			n++
+			if report.Owns(n) {
+				var sb strings.Builder
+				for i, l := range seq {
+					fmt.Fprintf(&sb, "%s,%s,%s\n", lranges[i][0], lranges[i][1], labels[l])
+				}
+				desc := strings.ReplaceAll(sb.String(), "\n", "; ")
+				rep.Eval("labels:" + desc)
+				var m *ipMarker
+				var err error
+				func() {
+					defer func() {
+						if r := recover(); r != nil {
+							err = fmt.Errorf("PANIC %v", r)
+						}
+					}()
+					m, err = loadIpMarkerFromReader(strings.NewReader(sb.String()))
+				}()
+				if err != nil {
+					rep.Violate("C07:groups:label-sequence-rejected", fmt.Sprintf("%v for %s", err, desc), nil)
+				} else {
+					for i, l := range seq {
+						for _, a := range lranges[i] {
+							if got := m.Mark(netip.MustParseAddr(a)); got != labels[l] {
+								rep.Violate("C07:groups:wrong-label", fmt.Sprintf("address %s: label %q, its line says %q; file: %s", a, got, labels[l], desc), nil)
+							}
+						}
+					}
+				}
+			}
+		}
+		if len(seq) == maxSeq {
+			return
+		}
+		for l := range labels {
+			seq = append(seq, l)
+			lrec()
+			seq = seq[:len(seq)-1]
+		}
+	}
+	lrec()
 }
 
 func TestVerifC07(t *testing.T) {
@@ -433,7 +486,7 @@ func TestVerifC07(t *testing.T) {
 	maxRanges := report.ParamInt("MAXRANGES", 2)
 	rep.Rule = fmt.Sprintf("E3/E1: (a) key: %d single-component variants (case, label, class, type, client address in same group / same label other range / v4-mapped / outside / other group) x base client {grouped, ungrouped, no marker file} x both store orders, via the real request path (tcp seam, per-client connections), each under the two fill patterns 0xA5/0x5A for recycled buffers: hit iff the property says so, outcome and key bytes independent of the pattern; "+
 		"(b) fidelity: all sequences of <=%d records over a 10-record alphabet x section assignments x rcode {0,3} x flags x client OPT on/off: cached response equals the relayed one except id and TTLs, answer/authority order kept; "+
-		"(c) groups: all files of <=%d ranges over a 12-point address universe (v4, v6, boundaries) vs linear scan on 15 probe addresses, overlapping files must be rejected; (e) hit guarantee: the C08 history space with the oracle 'repeat with >1 s of lifetime left is served from cache'",
+		"(c) groups: all files of <=%d ranges over a 12-point address universe (v4, v6, boundaries) vs linear scan on 15 probe addresses, overlapping files must be rejected, plus every label sequence of length <=5 over 3 labels on 6 disjoint ranges; (e) hit guarantee: the C08 history space with the oracle 'repeat with >1 s of lifetime left is served from cache'",
 		len(c07Variants()), maxRec, maxRanges)
 	if report.ReplayFile() == nil {
 		c07GroupLookup(rep, maxRanges)
